@@ -75,6 +75,21 @@ pub fn packets(tier: &str, seed: u64, big: bool) -> Vec<(Packet<'static>, String
             }
             v.push((p, "big".to_string()));
         }
+        // many distinct names (far more suffixes than any fixed-size table holds), each of them repeated later
+        // as an owner and inside compressible RDATA: every repetition must still be a pointer
+        for (n_names, labels) in [(60usize, 3usize), (150, 3), (400, 2), (700, 1)] {
+            let mut p = Packet::new_reply(n_names as u16);
+            let names: Vec<Name<'static>> = (0..n_names).map(|i| {
+                let ls: Vec<Vec<u8>> = (0..labels).map(|l| format!("n{}x{}", i, l).into_bytes()).collect();
+                crate::gen::mk_name(&ls)
+            }).collect();
+            for n in &names { p.answers.push(ResourceRecord::new(n.clone(), CLASS::IN, 1, rdata::RData::A(rdata::A { address: 1 }))); }
+            for (i, n) in names.iter().enumerate().rev() {
+                let other = names[(i * 7 + 3) % n_names].clone();
+                p.additional_records.push(ResourceRecord::new(n.clone(), CLASS::IN, 2, rdata::RData::CNAME(rdata::CNAME(other))));
+            }
+            v.push((p, "many-names".to_string()));
+        }
     }
     v
 }
